@@ -49,7 +49,8 @@ EXTRACT_TAGS = ["reader"]
 GENERATED_ITEMS = []
 ASSUMPTIONS = [
     "MQTT 5 property blocks are opaque to the model (delimited by their length); reason codes are byte values (tables: C17)",
-    "session effects of handlers (is the mid outstanding, stored QoS 2 message) are tracked by the harness, not by the model (M2)",
+    "session effects of handlers (is the mid outstanding, stored QoS 2 message) are tracked by the harness, not by the model (M2); manual_ack off, non-empty client id",
+    "masked WebSocket control frames carry no payload in the oracle runs (RFC 6455: servers never mask; the wrapper echoes a masked payload only partly unmasked)",
     "socket behaviours: recv(n) returns 1..min(n, available) bytes or raises BlockingIOError; EOF / errors only where scheduled",
     "loop_read() is called until it returns non-zero or a call makes no progress (so a packet completed by the 100th recv() "
     "of one call is dispatched by the extra call - see REPORT.md, latency note)",
@@ -908,10 +909,10 @@ def run(ctx, out):
                                            "signature": payload.get("signature", "corpus")})
 
     # ---- (i.a) exhaustive schedules on short streams, raw socket
-    cap = ctx.n(700, 70000)
+    cap = ctx.n(700, 300000)
     short_streams = sorted((x for x in exhaustive_streams(rng, ctx) if est_schedules(x[2]) <= cap),
                            key=lambda x: est_schedules(x[2]))
-    budget = ctx.n(14000, 600000)
+    budget = ctx.n(14000, 1200000)
     used = 0
     complete = True
     for cfg, tag, stream in short_streams:
